@@ -34,10 +34,55 @@ Judge(h, n, r) ==
     /\ (Len(n) = 1 => /\ r.starts_c = StartsWith(h, n) /\ r.ends_c = EndsWith(h, n)
                       /\ \A i \in 1 .. NP : r.find_c[i] = Find(h, n, P[i]) /\ r.rfind_c[i] = RFind(h, n, P[i]))
 
+\* ---- second event per case ("svx"): C-string / (pointer, length) / char / std::string overloads, iterators, aliasing views
+RECURSIVE CzLen(_, _)
+CzLen(s, k) == IF k > Len(s) \/ s[k] = 0 THEN k - 1 ELSE CzLen(s, k + 1)
+Cz(s) == SubSeq(s, 1, CzLen(s, 1))                 \* what a const char* argument denotes: the bytes before the first NUL
+Rel6(a, b) == LET c == Compare(a, b) IN <<c = 0, c # 0, c < 0, c > 0, c <= 0, c >= 0>>
+Rev(s) == [i \in 1 .. Len(s) |-> s[Len(s) + 1 - i]]
+SgOr(x, expected) == IF expected = Oor THEN x = Oor ELSE Sg(x) = expected
+InRange(p, h) == p # Npos /\ p <= Len(h)
+
+JudgeX(h, n, r) ==
+    LET nz == Cz(n) IN
+    /\ Sg(r.cmp_cs) = Compare(h, nz)
+    /\ \A i \in 1 .. NP : \A j \in 1 .. NP :
+         /\ SgOr(r.cmp3_cs[i][j], Compare3(h, P[i], P[j], nz))
+         /\ SgOr(r.cmp4_cs[i][j], Compare3(h, P[i], P[j], n))
+         /\ SgOr(r.cmp5[i][j], Compare5(h, P[i], P[j], n, P[j], P[i]))
+         /\ IF InRange(P[i], h)
+            THEN LET sub == Sub(h, P[i], P[j]) IN
+                 /\ r.al[i][j] = Rel6(h, sub) \o Rel6(sub, h) \o <<StartsWith(h, sub), EndsWith(h, sub)>>
+                 /\ Len(r.al_n[i][j]) = 7
+                 /\ Sg(r.al_n[i][j][1]) = Compare(h, sub) /\ Sg(r.al_n[i][j][2]) = Compare(sub, h)
+                 /\ r.al_n[i][j][3] = Find(h, sub, 0) /\ r.al_n[i][j][4] = RFind(h, sub, Npos) /\ r.al_n[i][j][5] = Find(sub, h, 0)
+                 /\ r.al_n[i][j][6] = FindFirstOf(h, sub, 0) /\ r.al_n[i][j][7] = FindLastNotOf(h, sub, Npos)
+            ELSE r.al[i][j] = <<>> /\ r.al_n[i][j] = <<>>
+    /\ \A i \in 1 .. NP :
+         /\ r.find_p[i] = Find(h, n, P[i]) /\ r.find_z[i] = Find(h, nz, P[i])
+         /\ r.rfind_p[i] = RFind(h, n, P[i]) /\ r.rfind_z[i] = RFind(h, nz, P[i])
+         /\ r.ffo_p[i] = FindFirstOf(h, n, P[i]) /\ r.ffo_z[i] = FindFirstOf(h, nz, P[i])
+         /\ r.flo_p[i] = FindLastOf(h, n, P[i]) /\ r.flo_z[i] = FindLastOf(h, nz, P[i])
+         /\ r.ffno_p[i] = FindFirstNotOf(h, n, P[i]) /\ r.ffno_z[i] = FindFirstNotOf(h, nz, P[i])
+         /\ r.flno_p[i] = FindLastNotOf(h, n, P[i]) /\ r.flno_z[i] = FindLastNotOf(h, nz, P[i])
+    /\ (Len(n) = 1 => \A i \in 1 .. NP :
+            /\ r.ffo_c[i] = FindFirstOf(h, n, P[i]) /\ r.flo_c[i] = FindLastOf(h, n, P[i])
+            /\ r.ffno_c[i] = FindFirstNotOf(h, n, P[i]) /\ r.flno_c[i] = FindLastNotOf(h, n, P[i]))
+    /\ r.rel_s = Rel6(h, n) /\ r.rel_s2 = Rel6(h, n) /\ r.rel_z = Rel6(h, nz) /\ r.rel_z2 = Rel6(Cz(h), n)
+    /\ r.fwd = h /\ r.cfwd = h /\ r.rev = Rev(h) /\ r.crev = Rev(h)
+    /\ r.front = (IF Len(h) = 0 THEN Oor ELSE h[1]) /\ r.back = (IF Len(h) = 0 THEN Oor ELSE h[Len(h)])
+    /\ r.len = Len(h) /\ r.size = Len(h) /\ r.empty = (Len(h) = 0)
+    /\ r.swap_a = n /\ r.swap_b = h /\ r.dflt_len = 0
+    /\ (HasField(r, "clear_len") =>      \* members / conversions that only tlx::StringView has (clear, to_string, <<, std interop)
+            /\ r.clear_len = 0 /\ r.clear_empty = TRUE /\ r.to_string2 = h /\ r.stream = h /\ r.to_std = h /\ r.from_std = h
+            /\ r.from_string = h /\ r.from_cstr = Cz(h) /\ r.from_range = h)
+
 Step ==
     CASE Ev.e = "reset" -> TRUE
       [] Ev.e = "sv" -> Judge(Ev.h, Ev.n, Ev.t)
       [] Ev.e = "sv_std" -> Judge(Ev.h, Ev.n, Ev.s)      \* self-check of SVA against std::string_view
+      [] Ev.e = "svx" -> JudgeX(Ev.h, Ev.n, Ev.t) /\ HasField(Ev.t, "clear_len")
+      [] Ev.e = "svx_std" -> JudgeX(Ev.h, Ev.n, Ev.s)
       [] OTHER -> FALSE
 TInit == l = 1
 TNext == l <= TraceLen /\ Step /\ l' = l + 1
